@@ -90,6 +90,20 @@ func SimC05(c *CheckCtx, i int, r *Rng) error {
 	sc.Variants = append(sc.Variants, Variant{Name: "together:0", Ops: []Op{{Kind: "run", Run: mk(perm(), false)}}})
 	sc.Variants = append(sc.Variants, Variant{Name: "together:1", Ops: []Op{{Kind: "run", Run: mk(perm(), false)}}})
 	sc.Variants = append(sc.Variants, Variant{Name: "together:all", Ops: []Op{{Kind: "run", Run: mk(perm()[:r.Range(1, len(sel))], true)}}})
+	if !real {
+		// the same process first serves a run that fails half-way (some generator callback returns an
+		// error after text was rendered): nothing of it may reach the files of the next run
+		failing := mk(perm(), false)
+		failing.Fresh = true
+		for _, g := range gens {
+			if isScripted(&g) {
+				failing.Faults = append(failing.Faults, proto.Fault{ExecSeq: -1, Kind: "gen", Gen: g.Name, Nth: r.Range(1, 3), Do: "gen-error"})
+			}
+		}
+		after := mk(perm(), false)
+		after.Fresh = false
+		sc.Variants = append(sc.Variants, Variant{Name: "together:after-failure", Ops: []Op{{Kind: "run", Run: failing}, {Kind: "run", Run: after}}})
+	}
 	for pi := range m.Pkgs {
 		sc.Variants = append(sc.Variants, Variant{Name: fmt.Sprintf("alone:%d", pi), Ops: []Op{{Kind: "run", Run: mk([]int{pi}, false)}}})
 	}
